@@ -732,6 +732,7 @@ static std::string e_geo_keywords(int geo, int nx, int ny, int nz) {
     }
 }
 
+static bool g_derive = false;          // case F = case E on a grid derived with EclipseGrid(src, zcorn, actnum)
 // case "E geo dim act du su fmt nnc map"
 static void case_E(int geo, int di, int ai, int du, int su, int fmt, int nncv, int mp, const std::string& cas) {
     const int nx = E_DIMS[di][0], ny = E_DIMS[di][1], nz = E_DIMS[di][2];
@@ -767,6 +768,17 @@ static void case_E(int geo, int di, int ai, int du, int su, int fmt, int nncv, i
         }
     } catch (const std::exception& e) { V("build-throws", std::string("grid/NNC cannot be built: ") + std::string(e.what()).substr(0, 300)); return; }
     if (g1->getActiveMap() != glob) { V("build-actnum", "deck ACTNUM not honoured"); return; }
+    if (g_derive) {
+        // case F: the grid saved is DERIVED from the deck grid with a new ZCORN (how a simulator hands back a processed grid):
+        // every depth stretched about the shallowest corner, same pillars, same ACTNUM.  What is saved must be the derived grid.
+        try {
+            std::vector<double> z = g1->getZCORN(); double z0 = 1e300; for (double v : z) z0 = std::min(z0, v);
+            for (double& v : z) v = z0 + 1.25 * (v - z0);
+            g1 = std::make_unique<EclipseGrid>(*g1, z.data(), act);
+            bool ok = g1->getZCORN().size() == z.size(); for (size_t p = 0; ok && p < z.size(); ++p) ok = close(g1->getZCORN()[p], z[p], 1e-14);
+            if (!ok) { V("derived-zcorn", "EclipseGrid(src, zcorn, actnum) does not carry the ZCORN it was given"); return; }
+        } catch (const std::exception& e) { V("build-throws", std::string("derived grid cannot be built: ") + std::string(e.what()).substr(0, 300)); return; }
+    }
 
     const std::string fn = g_dir + (fmt ? "/E.FEGRID" : "/E.EGRID");
     const Opm::UnitSystem us(UNITS[su].ty);
@@ -865,6 +877,7 @@ static void do_case(const std::string& c) {
     else if (k == 'C') { need(8); case_C(CSpec{a[0], a[1], a[2], a[3], a[4], a[5], a[6]}, a[7], c); R->count("cases_cpg"); }
     else if (k == 'D') { need(1); case_D(a[0], c); R->count("cases_big_thread_grids"); }
     else if (k == 'E') { need(8); case_E(a[0], a[1], a[2], a[3], a[4], a[5], a[6], a[7], c); R->count("cases_egrid"); }
+    else if (k == 'F') { need(8); g_derive = true; try { case_E(a[0], a[1], a[2], a[3], a[4], a[5], a[6], a[7], c); } catch (...) { g_derive = false; throw; } g_derive = false; R->count("cases_egrid_derived"); }
     else throw std::runtime_error("bad case string: " + c);
     if (g_batch.size() >= 1500) flush_threads();
 }
@@ -929,6 +942,9 @@ int main(int argc, char** argv) {
         // E
         for (int geo = 0; geo < 4 && alive; ++geo) for (int di = 0; di < (th ? 5 : 2) && alive; ++di) for (int ai = 0; ai < 5 && alive; ++ai) for (int du = 0; du < 4 && alive; ++du) for (int su = 0; su < 4 && alive; ++su)
             for (int fmt = 0; fmt < 2 && alive; ++fmt) for (int nn = 0; nn < 3 && alive; ++nn) for (int mp = 0; mp < 4 && alive; ++mp) alive = go("E" + J({geo, di, ai, du, su, fmt, nn, mp}));
+        // F: the same on grids derived with a new ZCORN
+        for (int geo = 0; geo < 4 && alive; ++geo) for (int di = 0; di < (th ? 5 : 2) && alive; ++di) for (int ai = 0; ai < 5 && alive; ai += 2) for (int du = 0; du < 4 && alive; ++du)
+            for (int fmt = 0; fmt < 2 && alive; ++fmt) alive = go("F" + J({geo, di, ai, du, du, fmt, 0, 0}));
         flush_threads();
     } catch (const std::logic_error& e) { harness_error(e.what()); }
     std::system(("rm -rf " + g_dir).c_str());
